@@ -238,7 +238,7 @@ def facts():
             f["flow_%s_%s" % (fn, lit)] = literal_flow(body, lit, params)
     # generators keep their own copy of the saved state: what they store at a yield and what they rebuild from
     mod_src = dict(inter).get("src/interpreter/mod.rs", "")
-    gbody = next((b for n, b, _ in functions(mod_src) if n == "resume_bytecode_generator"), "")
+    gbody = next((b for n, b, _ in functions(mod_src) if n == "resume_bytecode_generator_body"), "")
     stores = sorted(set("%s <- state.%s" % (a, b) for a, b in
                         re.findall(r"state\.(saved_[a-z_]+)\s*=\s*yield_(?:star_)?result\.state\.([a-z_]+)\s*;", gbody)))
     f["flow_generator_store"] = stores
